@@ -7,8 +7,8 @@ from props import xpath_common as X
 
 FIELDS = ["id", "k1", "f", "a"]
 BIG = 9007199254740993      # 2**53 + 1: not representable as a float
-VALS = ["1", "2", "x", "B", "a b", 1, 2, 1.5, "xy", "10", BIG, BIG - 1, "m=f", "a~b", "m=f~x"]
-LITS = ["1", "2", "x", "B", "a b", "xy", "1.5", "zz", "10", "0", str(BIG), str(BIG - 1), "m=f", "a~b"]
+VALS = ["1", "2", "x", "B", "a b", 1, 2, 1.5, "xy", "10", BIG, BIG - 1, "m=f", "a~b", "m=f~x", "C:\\tmp", "a\tb", "it's"]
+LITS = ["1", "2", "x", "B", "a b", "xy", "1.5", "zz", "10", "0", str(BIG), str(BIG - 1), "m=f", "a~b", "C:\\tmp", "a\tb", "it's"]
 
 
 def gen_recs(rng, n=None):
@@ -50,13 +50,14 @@ class C06(Prop):
     rule = ("lists of 0..5 dict records (fields id,k1,f,a each present with p=0.7; string, int and half-float values, duplicates) "
             "at depth 0..3 of an enclosing tree; selecting expressions P[*]/f, P/f, P[k=v]/f, P[k!=v]/f, P[k~v]/f, quoted / "
             "unquoted literal, P/k[text()=v]/../f, literals occurring and not occurring; item access, get and first; plus "
-            "chained selections (recorded finding). non-trivial = at least one record selected; distinct = distinct (tree, path, entry point)")
+            "chained selections: predicate after predicate (recorded finding) and fan-out first (orders/items[k=v]/f, get and first). non-trivial = at least one record selected; distinct = distinct (tree, path, entry point)")
     trusted_base = ["reference selection = Python list comprehension over the plain records (harness)"]
     streams = {"lookup": X.LOOKUP_STREAM}
     classifiers = {
         "c06_chained": lambda case, obs, failure: case["input"].get("form") == "chained",
         "c06_tilde_in_eq_literal": lambda case, obs, failure: case["input"].get("form") in ("eq", "eqq", "text")
-        and "~" in case["input"].get("v", ""),
+        and "~" in case["input"].get("v", "")
+        or case["input"].get("form") == "fanchain" and "=" in case["input"]["xpath"].split("/")[-2] and "~" in case["input"].get("v", ""),
     }
 
     def valid(self, case):
@@ -80,7 +81,7 @@ class C06(Prop):
             f = rng.choice(FIELDS)
             k = rng.choice(FIELDS)
             v = rng.choice(LITS)
-            form = rng.choice(["star", "short", "eq", "eq", "ne", "has", "eqq", "text", "chained"])
+            form = rng.choice(["star", "short", "eq", "eq", "ne", "has", "eqq", "text", "chained", "fanchain"])
             q = rng.choice(["'", '"'])
             if form == "star":
                 xp = "%s[*]/%s" % (P, f)
@@ -96,12 +97,19 @@ class C06(Prop):
                 xp = "%s[%s~%s]/%s" % (P, k, v, f)
             elif form == "text":
                 xp = "%s/%s[text()=%s]/../%s" % (P, k, v, f)
+            elif form == "fanchain":
+                # chained selection whose first selecting step is a fan-out: orders/items[k=v]/f, orders[*]/items/f ...
+                orders = [{"id": rng.choice(["1", "2"]), "items": gen_recs(rng, rng.randint(0, 3))} for _ in range(rng.randint(1, 3))]
+                t, ppath = {"orders": orders}, None
+                outer = rng.choice(["orders", "orders[*]", "/orders"])
+                inner = rng.choice(["items[%s=%s]" % (k, v), "items[%s=%s]" % (k, v), "items", "items[*]", "items[%s!=%s]" % (k, v)])
+                xp = "%s/%s/%s" % (outer, inner, f)
             else:
                 # chained selection: orders[id=..]/items[k1=..]/f
                 orders = [{"id": rng.choice(["1", "2"]), "items": gen_recs(rng, rng.randint(0, 3))} for _ in range(rng.randint(1, 3))]
                 t, ppath = {"orders": orders}, None
                 xp = "orders[id=%s]/items[%s=%s]/%s" % (rng.choice(["1", "2"]), k, v, f)
-            for kind in ((0, 1, 2) if form != "chained" else (1,)):
+            for kind in ((1,) if form == "chained" else (1, 2) if form == "fanchain" else (0, 1, 2)):
                 out.append({"stream": "lookup", "tag": "%s:d%d:k%d" % (form, depth, kind),
                             "input": {"tree": t, "mode": mode, "xpath": xp, "kind": kind, "form": form, "ppath": ppath,
                                       "f": f, "k": k, "v": v}})
@@ -120,6 +128,26 @@ class C06(Prop):
 
     def expected(self, i):
         form, f, k, v = i["form"], i["f"], i["k"], i["v"]
+        if form == "fanchain":
+            inner = i["xpath"].split("/")[-2]
+            out = []
+            for o in i["tree"]["orders"]:
+                sel = []
+                for r in o["items"]:
+                    if "=" in inner:
+                        if k not in r:
+                            continue
+                        e = lit_eq(r[k], v)
+                        if e is None:
+                            return None
+                        if e == ("!=" in inner):
+                            continue
+                    if f in r:
+                        if isinstance(r[f], list) and len(r[f]) == 1:
+                            return None   # first unwraps a singleton list value once more: not covered by the statement
+                        sel.append(r[f])
+                out.append(sel)
+            return ("nested", out)
         if form == "chained":
             out = []
             oid = i["xpath"].split("[id=")[1].split("]")[0]
@@ -167,6 +195,13 @@ class C06(Prop):
             if not flat:
                 return None if res == X.DFLT else "chained selection with no match returned %r" % (res,)
             want = [s for s in sel if s]
+            if kind == 2:
+                # first unwraps a single match, at the level of the parents and within each parent
+                want = [s[0] if len(s) == 1 else s for s in want]
+                want = want[0] if len(want) == 1 else want
+                if not X.same(X.plain(res), want):
+                    return "first(%r) returned %r, the per-parent selections with single matches unwrapped are %r" % (i["xpath"], X.plain(res), want)
+                return None
             if not (isinstance(res, list) and X.same(X.plain(res), want)):
                 return "chained selection %r returned %r, per-parent selections are %r" % (i["xpath"], X.plain(res) if isinstance(res, list) else res, want)
             return None
